@@ -281,6 +281,28 @@ MUTANTS = [
  ('C11-9', 'C11', 'MIP/geom/semantics.py',
   "    def inverse(self):\n        return Surface(-self.surface, self.sub)",
   "    def inverse(self):\n        return Surface(-self.surface, None)"),
+ # ---- C12
+ ('C12-1', 'C12', K + 'FileHandlers/Parser/ParseMCNPCell.py',
+  "        max_importances = [max(*values) for values in zip(*importances)]",
+  "        max_importances = [min(*values) for values in zip(*importances)]"),
+ ('C12-2', 'C12', K + 'FileHandlers/Parser/ParseMCNPCell.py',
+  "                kws['importance'] = self.importances[rank]",
+  "                kws['importance'] = self.importances[max(rank - 1, 0)]"),
+ ('C12-3', 'C12', K + 'Volume/ConstructVolumeT4.py',
+  "                 if value.importance != 0 and value.universe == 0",
+  "                 if value.importance > 1 and value.universe == 0"),
+ ('C12-4', 'C12', K + 'FileHandlers/Parser/ParseMCNPCell.py',
+  "                keywords['importance'] = max(importances.values())",
+  "                keywords['importance'] = importance"),
+ ('C12-5', 'C12', 'MIP/mip/datacard.py',
+  "            n_reps = int(token[:-1]) if len(token) > 1 else 1\n            result.extend([result[-1]]*n_reps)",
+  "            n_reps = int(token[:-1]) if len(token) > 1 else 1\n            result.extend([result[-1]]*(n_reps if n_reps < 3 else n_reps - 1))"),
+ ('C12-6', 'C12', 'MIP/mip/datacard.py',
+  "    step = (upper - lower) / (n_vals + 1)\n    yield from (float(lower+i*step) for i in range(1, n_vals+1))",
+  "    step = (upper - lower) / (n_vals + 1)\n    yield from (float(lower+(i-1)*step) for i in range(1, n_vals+1))"),
+ ('C12-7', 'C12', K + 'FileHandlers/Parser/ParseMCNPCell.py',
+  "                if cell.importance == 0:\n                    skipped_cells.append(key)",
+  "                if cell.importance == 0 and rank > 0:\n                    skipped_cells.append(key)"),
 ]
 
 
